@@ -73,6 +73,8 @@ type instrResult struct {
 	Extra        map[string]string // reserved
 	ChanFiles    int               // files whose channel operations were rewritten (seam 5)
 	MapRanges    int               // rewritten range-over-map statements
+	ExtraAPI     int               // exported functions/methods unknown to the harness that got a generated wrapper
+	ExtraAPISrc  string            // source of verifsim/worker/extra_api.go
 	MapRangeNote string            // why the map-range seam is off, if it is
 }
 
@@ -422,6 +424,10 @@ func instrumentTree(root, dst string, points bool) (*instrResult, error) {
 		}
 		res.Files = append(res.Files, rel)
 		pkgDirs[filepath.Dir(rel)] = true
+	}
+	res.ExtraAPISrc = "package main\n"
+	if facts != nil {
+		res.ExtraAPISrc, res.ExtraAPI = genExtraAPI(facts.pkgs)
 	}
 	res.Points = in.nextID
 	res.MapRanges = nMapRange
